@@ -9,6 +9,7 @@
                   (a key given twice counts at its last position)
     del d[k]      removes the binding of `k`; `KeyError` when there is none
     d[k]          the value bound to `k`; `KeyError` when there is none
+    an operation that raises (missing key, unhashable key or value) changes nothing
     value2keys v  the keys bound to `v`, in order of most recent assignment
     key2keys k    `value2keys (d[k])`
     values        every bound value once;   len = how many values;   key tuples = one per value
@@ -63,6 +64,10 @@ def specStep (l : Log K V) : Op K V → Log K V × Res K V
   | .key2keys k => (l, .ofKeys (specKey2keys l k))
   | .value2keys v => (l, .keys (keysOf l v))
   | .len => (l, .num (specLen l))
+  -- an operation that raises assigns nothing: the map is what it was
+  | .setUnhashable _ => (l, .rejected)
+  | .setBadKey _ _ _ => (l, .rejected)
+  | .badOperand => (l, .rejected)
 
 def specRun : Log K V → List (Op K V) → Log K V × List (Res K V)
   | l, [] => (l, [])
@@ -179,6 +184,9 @@ def sdSpecStep (g : SDSpec K V) : SOp K V → SDSpec K V × Res K V
   | .default => (g, .ofDefault g.default)
   | .call => (g, .ofDefault g.default)
   | .len => (g, .num (specLen g.log))
+  -- an operation that raises changes nothing: map, attributes and default are what they were
+  | .setRefused _ => (g, .rejected)
+  | .rejected => (g, .rejected)
 
 def sdSpecRun : SDSpec K V → List (SOp K V) → SDSpec K V × List (Res K V)
   | g, [] => (g, [])
